@@ -140,6 +140,7 @@ def run_shard(spec):
             B.bump(obs["outcomes"], "ok" if r.exc_type is None else r.exc_type)
             base = {"op": op.kind, "cls": op.cls, "wrappers": E.wrappers_label(dv) if dv.target else "non-editable",
                     "failures_before": str(min(failures_since_sync, 3))}
+            base.update(B.mixed_keys(dv, op.npath))
             keys = []
             if twin is not None:
                 rt = twin.apply(op)
